@@ -933,6 +933,34 @@ def op_copy(s, a):
         s.rep.add(id(r))
 
 
+def op_churn_views(s, a):
+    """Many short-lived virtual views of one network are created, dropped and replaced *within one step* (no owner-table
+    trimming in between, as in a loop over `tn.select(...)` views): every new view must be registered with its tensors
+    even when it is allocated where a dead, not yet trimmed owner used to live.  Up to two new views stay in the history
+    (the invariant then checks their maps against tensor-level edits made by later rules)."""
+    ni, n, keep, how = a
+    tn = pick_net(s, ni)
+    if not tn.tensor_map:
+        raise Reject("empty network")
+    n = 8 + n % 40
+    mk = (lambda: tn.copy(virtual=True)) if how % 2 == 0 else (lambda: Q().TensorNetwork(list(tn.tensor_map.values()), virtual=True))
+    views = [mk() for _ in range(n)]
+    del views
+    new = [mk() for _ in range(n)]
+    for v in new:
+        for tid, t in v.tensor_map.items():
+            ent = t.owners.get(hash(v))
+            if ent is None or ent[0]() is not v or ent[1] != tid:
+                raise Violation("owners", missing=1, extra=0)
+    for v in new[: keep % 3]:
+        s.nets.append(v)
+        if id(tn) in s.rep:
+            s.rep.add(id(v))
+    del new
+    gc.collect()
+    s.rep &= {id(x) for x in s.nets}
+
+
 def op_tids_consecutive(s, a):
     ni, t0 = a
     tn = pick_net(s, ni)
@@ -1139,6 +1167,7 @@ OPS = {
     "cut_bond": (st.tuples(I, I), op_cut_bond),
     "select": (st.tuples(I, I, I, B, st.integers(0, 3)), op_select),
     "copy": (st.tuples(I, st.integers(0, 5)), op_copy),
+    "churn_views": (st.tuples(I, I, I, I), op_churn_views),
     "tids_consecutive": (st.tuples(I, I), op_tids_consecutive),
     "drop_net": (st.tuples(I), op_drop_net),
     "drop_tensor": (st.tuples(I), op_drop_tensor),
